@@ -65,6 +65,18 @@ def replay_case(chk, case, remove_pbc, scales=(1, 4, 10)):
             if not case["ties"][i] and not np.allclose(shifted[i], out[i], atol=1e-9, rtol=0):
                 chk.violation("ShiftInvariantOffTies", {"H": case["H"], "ppp": case["ppp"], "scale": scale, "r": case["rs"][i]})
                 return
+    # the documented default of the mask: all three axes periodic
+    if d == 3 and all(int(x) == 1 for x in ppp):
+        try:
+            dflt = np.asarray(remove_pbc(rs, H), dtype=float)
+        except Exception as e:  # noqa
+            chk.violation(f"raises:{type(e).__name__}", {"H": case["H"], "ppp": "default", "error": str(e)[:200]})
+            return
+        for i in range(len(rs)):
+            if dflt.shape != rs.shape or not _near_any(dflt[i], case["imgs"][i], 1):
+                chk.violation("MinImage:default mask", {"H": case["H"], "ppp": "omitted (documented default: all periodic)", "r": case["rs"][i],
+                                                        "admissible": case["imgs"][i]})
+                return
     # argument renderings: the grid displacements (and the cell) are integers - passed as integer arrays (site / grid
     # coordinates) the result must still be the minimum image (a real vector, whatever the input dtype)
     for dt, Hd in ((np.int64, float), (np.int32, float), (np.int64, np.int64), (np.int16, float)):
